@@ -482,6 +482,181 @@ def ctor_check(pid, tier, seed, t0):
     return rc
 
 
+# --------------------------------------------------------------------- compile-time family (C14)
+
+def cfail_coq_term(d):
+    def views(vs):
+        return "[" + "; ".join("VComp %s %d" % (k, c) for k, c in vs) + "]"
+    b = lambda x: "true" if x else "false"  # noqa: E731
+    if d[0] == "query":
+        return "CQuery 2 %s %s" % (views(d[1]), views(d[2]))
+    if d[0] == "resviews":
+        return "CResViews 2 [%s]" % "; ".join("(%s, %d)" % (b(m), i) for m, i in d[1])
+    if d[0] == "outside":
+        return "COutside"
+    if d[0] == "inside":
+        return "CInside"
+    if d[0] == "thread":
+        api = {"world_move": "TWorldMove", "world_share": "TWorldShare", "iter_ref": "TViewRef", "iter_mut": "TViewMut"}[d[1]]
+        return "CThread %s %s %s" % (api, b(d[2]), b(d[3]))
+    if d[0] == "overlap":
+        return "COverlap %s %s %s" % (d[1], b(d[2]), b(d[3]))
+    if d[0] == "shared":
+        return "CSharedTwice"
+    if d[0] == "sequential":
+        return "CSequential"
+    return "CDisjoint"
+
+
+def cfail_check(pid, tier, seed, t0):
+    import re
+    sys.path.insert(0, os.path.join(VERIF, "tools"))
+    import gen_cfail
+    tstatus = regen("translate_facts.py", "Facts")
+    tstatus2 = regen("translate.py", "Tables")
+    proof = check_props(pid)
+    out = os.path.join(common.BUILD, "cfail")
+    fam = gen_cfail.emit(out)
+    verdicts = {}
+    infra = None
+    with common.Lock("cargo-cfail"):
+        for crate in ("types", "borrow"):
+            d = os.path.join(out, crate)
+            lock = os.path.join(d, "Cargo.lock")
+            if not os.path.exists(lock):
+                open(lock, "w").write(open(os.path.join(common.REPO, "Cargo.lock")).read())
+            e = common.env()
+            e["CARGO_TARGET_DIR"] = os.path.join(common.BUILD, "target_cfail")
+            e["RUSTFLAGS"] = "-Awarnings"
+            p = common.run(["cargo", "check", "--offline", "--message-format=json", "--lib"], cwd=d, check=False, env_=e, timeout=1800)
+            errs = []
+            saw_result = False
+            for line in p.stdout.split("\n"):
+                if not line.startswith("{"):
+                    continue
+                try:
+                    m = json.loads(line)
+                except ValueError:
+                    continue
+                if m.get("reason") == "build-finished":
+                    saw_result = True
+                if m.get("reason") != "compiler-message" or m["message"].get("level") != "error":
+                    continue
+                tgt = m.get("target", {}).get("name", "")
+                if not tgt.startswith("cfail"):
+                    infra = "brood itself does not compile: " + m["message"].get("message", "")[:300]
+                    continue
+                spans = [sp for sp in m["message"].get("spans", []) if sp.get("is_primary")] or m["message"].get("spans", [])
+                code = (m["message"].get("code") or {}).get("code")
+                for sp in spans[:1]:
+                    errs.append((sp["line_start"], code, m["message"]["message"][:160]))
+            if not saw_result and not errs:
+                infra = "cargo check produced no result for %s: %s" % (crate, p.stdout[-800:])
+            for pr in fam:
+                if pr["crate"] != crate:
+                    continue
+                mine = [(c, msg) for (ln, c, msg) in errs if pr["first_line"] <= ln <= pr["last_line"]]
+                verdicts[pr["name"]] = ("reject", mine) if mine else ("accept", [])
+            outside = [(ln, c, msg) for (ln, c, msg) in errs if not any(pr["crate"] == crate and pr["first_line"] <= ln <= pr["last_line"] for pr in fam)]
+            if outside:
+                infra = "error outside every program in %s: %s" % (crate, outside[:2])
+    if infra and proof["ok"]:
+        raise Infra(infra)
+    # a type error inside the borrow crate hides every borrow-check verdict: the programs there must type-check
+    borrow_type_errors = [(n, v) for n, v in verdicts.items()
+                          if any(pr["name"] == n and pr["crate"] == "borrow" for pr in fam)
+                          and any(c and not c.startswith("E05") and not c.startswith("E07") and c not in ("E0499", "E0502", "E0505", "E0506", "E0597", "E0716") for c, _ in v[1])]
+    # model, evaluated in Coq on the regenerated facts/tables
+    wd = os.path.join(common.BUILD, "run", "cfail")
+    os.makedirs(wd, exist_ok=True)
+    with open(os.path.join(wd, "cases.v"), "w") as f:
+        f.write("From Brood Require Import Base World Kinds Tables Sched Facts Access.\n")
+        f.write("Definition b2n (b : bool) : nat := if b then 1 else 0.\n")
+        f.write("Eval vm_compute in [%s].\n" % "; ".join("b2n (accepts (%s))" % cfail_coq_term(pr["desc"]) for pr in fam))
+    model, model_err = None, None
+    ok, log = common.build_coq(["Model/Access.vo"])
+    if not ok:
+        model_err = log[-2000:]
+    else:
+        with common.Lock("coq"):
+            p = common.run(["timeout", "600", "coqc", "-noglob", "-Q", common.COQ, "Brood", os.path.join(wd, "cases.v")], cwd=wd, check=False)
+        m = re.search(r"=\s*\[([^\]]*)\]", p.stdout)
+        if p.returncode != 0 or not m:
+            model_err = p.stdout[-2000:]
+        else:
+            model = [int(x) for x in re.findall(r"\d+", m.group(1))]
+            if len(model) != len(fam):
+                model, model_err = None, "model output count mismatch"
+    known = [k for k in load_known() if k["property"] == pid and k["status"] == "known"]
+    known_classes = {k.get("class") for k in known}
+    viol, diverged, known_hits = [], [], Counter()
+    for i, pr in enumerate(fam):
+        got = verdicts.get(pr["name"], ("?", []))[0]
+        if got != pr["expect"]:
+            if pr.get("known") in known_classes and pr["expect"] == "reject" and got == "accept":
+                known_hits[pr["known"]] += 1
+            else:
+                viol.append((i, "rustc %ss a program the property requires it to %s: %s  [%s]"
+                             % (got, pr["expect"], pr["body"], "; ".join("%s %s" % e for e in verdicts.get(pr["name"], ("", []))[1][:2]))))
+        if model is not None and (model[i] == 1) != (got == "accept"):
+            diverged.append((i, "model accepts=%d, rustc %s" % (model[i], got)))
+    rc = 0
+    if viol:
+        i, msg = viol[0]
+        path = write_replay(pid, seed, {"property": pid, "kind": "failing-program", "message": msg, "program": fam[i],
+                                        "all": [fam[j]["name"] for j, _ in viol[:30]],
+                                        "how_to_replay": "cd build/cfail/%s && cargo check --offline  (function p_%s::f)" % (fam[i]["crate"], fam[i]["name"])})
+        print("VIOLATION property=%s replay=%s" % (pid, path))
+        print("  " + msg)
+        rc = 1
+    elif not proof["ok"] or diverged or model_err or borrow_type_errors:
+        what = []
+        if not proof["ok"]:
+            what.append({"theorem_or_file": proof["failed_theorem"], "log": proof["log"][-1500:], "translator": [tstatus, tstatus2]})
+        if model_err:
+            what.append({"model": "Model/Access.v could not be evaluated on the regenerated facts", "log": model_err})
+        if diverged:
+            what.append({"correspondence": "rustc verdicts vs accepts of Model/Access.v", "program": fam[diverged[0][0]],
+                         "detail": diverged[0][1], "n_diverged": len(diverged)})
+        if borrow_type_errors:
+            what.append({"family": "programs of the borrow crate no longer type-check", "first": borrow_type_errors[0]})
+        path = write_replay(pid, seed, {"property": pid, "kind": "no-failing-input-found", "no_longer_checks": what})
+        print("VIOLATION property=%s replay=%s no-failing-input-found" % (pid, path))
+        rc = 1
+    for k in known:
+        if known_hits[k["class"]] > 0:
+            print("KNOWN-FINDING: property=%s %s (%s; reproduced %d times this run, witness %s)"
+                  % (pid, k["what"], k["id"], known_hits[k["class"]], k.get("witness", "-")))
+    codes = Counter(c for v in verdicts.values() for c, _ in v[1])
+    cov = {
+        "obligations": proof["obligations"], "discharged": proof["discharged"],
+        "checker_cmd": "tools/translate_facts.py, tools/translate.py; make -C coq Props/C14.vo && coqc -Q coq Brood coq/Props/C14.v; cargo check --message-format=json on build/cfail/{types,borrow}",
+        "trusted_base": TRUSTED_BASE + ["rustc's trait solver and borrow checker are the oracle for the bounds themselves"],
+        "theorems": proof["theorems"], "print_assumptions_closed": proof.get("closed", 0), "axioms": proof["axioms"],
+        "translator": [tstatus, tstatus2],
+        "programs": len(fam), "disagreements_checked": len(diverged),
+        "evaluations": len(fam), "distinct_nontrivial": len({pr["body"] for pr in fam if pr["expect"] == "reject"}),
+        "rule": "every pair of view kinds on one component inside a query's views (16), between views and entry views (16), inside "
+                "entry views (16), each paired with its conflict-free neighbour on two components; every mutability pair on one "
+                "resource in view_resources and in a query's resource views; every API with a component/resource outside the "
+                "registry; thread-crossing APIs (world moved/shared, result::Iter, Entries, par_query) with a !Send+!Sync and a "
+                "Send+!Sync payload and their Send+Sync neighbours; two results of one receiver alive at once for "
+                "World::entry, World::query, get_mut/get, view_resources and query::Entries::entry, with sequential neighbours. "
+                "Non-trivial: programs the property requires to be rejected.",
+        "samples": [fam[0]["body"], fam[len(fam) // 2]["body"], fam[-2]["body"]],
+        "traces_validated_against_impl": len(fam) - len(diverged),
+        "error_codes": dict(codes), "known_finding_hits": dict(known_hits),
+        "explanation": "theorem: whatever the modelled bounds accept is sound (bounds regenerated from the source); every program of the "
+                       "generated family compiled by the real rustc (two crates: trait resolution, borrow checking), verdicts compared "
+                       "with the property and with the model",
+    }
+    write_evidence(pid, tier, seed, "proof", cov,
+                   ["rustc's trait solver and borrow checker are not modelled: they are the oracle",
+                    "&C is Send iff C: Sync and &mut C is Send iff C: Send (std)"],
+                   time.time() - t0, 1 if rc else 0)
+    return rc
+
+
 # --------------------------------------------------------------------- dispatch
 
 def run_check(pid, tier, seed, t0):
@@ -491,6 +666,8 @@ def run_check(pid, tier, seed, t0):
         return sched_check(pid, tier, seed, t0)
     if pid == "C18":
         return ctor_check(pid, tier, seed, t0)
+    if pid == "C14":
+        return cfail_check(pid, tier, seed, t0)
     raise Infra("no check registered for %s" % pid)
 
 
@@ -499,8 +676,8 @@ def replay(pid, path):
         return replay_wh(pid, path)
     if pid in ("C07", "C08", "C12"):
         return replay_sched(pid, path)
-    if pid == "C18":
+    if pid in ("C18", "C14"):
         r = json.load(open(path))
-        print(json.dumps({k: r.get(k) for k in ("message", "case", "how_to_replay", "no_longer_checks")}, indent=1)[:3000])
+        print(json.dumps({k: r.get(k) for k in ("message", "case", "program", "how_to_replay", "no_longer_checks")}, indent=1)[:3000])
         return run_check(pid, "quick", 1, time.time())
     raise Infra("no replay for %s" % pid)
